@@ -242,7 +242,7 @@ CHECKS["C09"] = dict(
                  "CBOR text strings carry the logged bytes verbatim (UTF-8 validity of text strings is not required by well-formedness)",
                  "shortest-form (preferred) serialization of arguments is not demanded"],
     replay=replay_index("c09", "vh-bin"),
-    require=dict(events_written=1000, strlen_255=1, strlen_256=1, int_arg_65536=1),
+    require=dict(events_written=1000, strlen_255=1, strlen_256=1, int_arg_65536=1, arrlen_24=1, arrlen_256=1, arrlen_65535=1, arrlen_65536=1, strlen_65536=1),
 )
 
 CHECKS["C08"] = dict(
